@@ -175,6 +175,27 @@ theorem wl_equivariant {H : Type} {ops : HashOps H} (hx : ExactOps ops) {n : Nat
     (corr_zero n π hp.lt)
   exact h.1 u hu
 
+/-- **wl_equivariant_any_storage**. The same for *any* stored form of the renumbered graph: `adj'` has, in row
+`π u`, the renumbered neighbours of `u` in whatever order (scipy's `P A Pᵀ` re-sorts the rows; `relabelAdj` keeps
+the original order) — with an exact hash the order inside a row is irrelevant (`colorWL_sameRows`). For the float
+hash this is exactly the summation-order question the twin-graph generator probes. -/
+theorem wl_equivariant_any_storage {H : Type} {ops : HashOps H} (hx : ExactOps ops) {n : Nat} {π πinv : Nat → Nat}
+    (hp : IsPerm n π πinv) (adj adj' : List (List Nat)) (hn : adj.length = n) (hwf : WFAdj adj)
+    (hs : SameRows (relabelAdj π πinv adj) adj') (maxIter : Option Nat) (u : Nat) (hu : u < n) :
+    (colorWL ops adj' maxIter).getD (π u) 0 = (colorWL ops adj maxIter).getD u 0 := by
+  rw [← colorWL_sameRows hx hs maxIter]
+  exact wl_equivariant hx hp adj hn hwf maxIter u hu
+
+/-- Non-vacuity: the rotation `u ↦ u+1 mod 5` is a renumbering, and the house graph stored with sorted rows is a
+stored form of its renumbered copy. -/
+example : IsPerm 5 (fun u => (u + 1) % 5) (fun u => (u + 4) % 5) ∧
+    SameRows (relabelAdj (fun u => (u + 1) % 5) (fun u => (u + 4) % 5) [[1, 4], [0, 2, 4], [1, 3], [2, 4], [0, 1, 3]])
+      [[1, 2, 4], [0, 2], [0, 1, 3], [2, 4], [0, 3]] := by
+  refine ⟨⟨fun i _ => Nat.mod_lt _ (by decide), fun i _ => Nat.mod_lt _ (by decide), fun i hi => by omega,
+    fun i hi => by omega⟩, by decide, fun i hi => ?_⟩
+  have : i = 0 ∨ i = 1 ∨ i = 2 ∨ i = 3 ∨ i = 4 := by simp [relabelAdj_length] at hi; omega
+  rcases this with rfl | rfl | rfl | rfl | rfl <;> decide
+
 /-- the edge counts compared by `are_isomorphic` agree for a renumbered copy -/
 theorem nnz_relabel {n : Nat} {π πinv : Nat → Nat} (hp : IsPerm n π πinv) (adj : List (List Nat))
     (hn : adj.length = n) : nnz (relabelAdj π πinv adj) = nnz adj := by
